@@ -108,7 +108,9 @@ def histories(draw):
             continue
         steps.append({'name': name, 'texts': texts, 'w': w, 'werror': d.pct() < 35, 'version': d.int(0, 3),
                       'depth': d.choice([None, None, 900, 50, 12, 3000]), 'use_stl': use_stl,
-                      'dir_tag': d.choice(['x', 'y', 'deep/er/dir', 'a b', 'x']), 'debug': True})
+                      'dir_tag': d.choice(['x', 'y', 'deep/er/dir', 'a b', 'x']), 'debug': True,
+                      # the stl files' short names as the lower-level assembler.assemble lets a caller choose them
+                      'short_prefix': d.choice([None, None, None, 'lib']) if use_stl else None})
     return {'steps': steps}
 
 
@@ -122,7 +124,7 @@ _memo = {}
 
 def fresh(req):
     """result of the request in a fresh interpreter process (memoised in-process and on disk inside the snapshot)"""
-    key = hashlib.sha256(canon({k: req[k] for k in ('texts', 'w', 'werror', 'version', 'depth', 'use_stl', 'debug')}).encode()).hexdigest()[:24]
+    key = hashlib.sha256(canon({k: req.get(k) for k in ('texts', 'w', 'werror', 'version', 'depth', 'use_stl', 'debug', 'short_prefix')}).encode()).hexdigest()[:24]
     if key in _memo:
         return _memo[key]
     snap = os.environ[env.ENV_SNAPSHOT]
